@@ -200,6 +200,20 @@ using sizes = ll::buffer_sizes< 100u, 100u >;
   #define IV0_MS 100
   static const int type_codes[] = { 0 };
   using link_layer_t = ll::link_layer< server_t, radio, sizes, ll::no_auto_start_advertising >;
+#elif ADV_CFG >= 10 && ADV_CFG <= 14   // all defaults but a compile time interval that is no multiple of 0.625 ms (nor of 5 ms)
+  #if ADV_CFG == 10
+    #define IV0_MS 33
+  #elif ADV_CFG == 11
+    #define IV0_MS 21
+  #elif ADV_CFG == 12
+    #define IV0_MS 152
+  #elif ADV_CFG == 13
+    #define IV0_MS 1022
+  #else
+    #define IV0_MS 10239
+  #endif
+  static const int type_codes[] = { 0 };
+  using link_layer_t = ll::link_layer< server_t, radio, sizes, ll::advertising_interval< IV0_MS > >;
 #else
   #error unknown ADV_CFG
 #endif
